@@ -227,11 +227,14 @@ where
     K::Type<A>: Array<K, A>,
 {
     fn dagger(&self) -> Self {
-        OpenHypergraph {
+        let r = OpenHypergraph {
             s: self.t.clone(),
             t: self.s.clone(),
             h: self.h.clone(),
-        }
+        };
+        #[cfg(feature = "verif-hooks")]
+        crate::verif_trace::record_unary("strict.dagger", self, &r);
+        r
     }
 
     fn spider(s: FiniteFunction<K>, t: FiniteFunction<K>, w: Self::Object) -> Option<Self> {
@@ -315,6 +318,12 @@ where
 {
     /// Returns true if there is no directed path from any node to itself.
     pub fn is_acyclic(&self) -> bool {
+        #[cfg(feature = "verif-hooks")]
+        if crate::verif_trace::enabled() {
+            let r = self.h.is_acyclic();
+            crate::verif_trace::record_predicate("strict.is_acyclic", self, r);
+            return r;
+        }
         self.h.is_acyclic()
     }
 
@@ -324,6 +333,14 @@ where
     /// - for all nodes v, in-degree(v) is 0 if v in in(G), else 1
     /// - for all nodes v, out-degree(v) is 0 if v in out(G), else 1
     pub fn is_monogamous(&self) -> bool {
+        #[cfg(feature = "verif-hooks")]
+        if crate::verif_trace::enabled() && !crate::verif_trace::in_hook() {
+            crate::verif_trace::set_in_hook(true);
+            let r = self.is_monogamous();
+            crate::verif_trace::set_in_hook(false);
+            crate::verif_trace::record_predicate("strict.is_monogamous", self, r);
+            return r;
+        }
         let node_count = self.h.w.len();
 
         // Check injectivity of the source interface map (no node appears twice).
